@@ -17,6 +17,7 @@ package main
 //     per-request mux.Message, and whether that is an object built for this request alone;
 //   - muxApplyDirect: for every options.MuxHandlerOpt.<X>Apply whether it installs `mux.ToHandler[…](o.m)` itself;
 //   - uriPathOptionID: the number of the Uri-Path option;
+//   - optionDeltaBaseIsComputedNumber: what the loop of message.Options.Unmarshal takes as the base of the next option's delta;
 //   - observationCleansUpOnEveryError / discoveryCleansUpOnFailedWrite: the two token tables that are consulted BEFORE the
 //     configured handler (observation table of a connection, multicast table of a udp server) drop the token of an
 //     exchange on every failing exit.
@@ -196,6 +197,7 @@ func genRouterLockShape(g *gen, repo string) {
 	uriPathID := rlOptionIDConst(repo, "URIPath")
 	obsCleanup := rlObservationCleanup(repo)
 	useAppends := rlUseAppends(repo)
+	deltaBaseComputed := rlOptionDeltaBase(repo)
 	discCleanup := rlDiscoveryCleanup(repo)
 
 	var b strings.Builder
@@ -252,6 +254,8 @@ func genRouterLockShape(g *gen, repo string) {
 	fmt.Fprintf(&b, "def discoveryCleansUpOnFailedWrite : Bool := %v\n\n", discCleanup)
 	b.WriteString("/-- mux/middleware.go Router.Use: is the body exactly `r.middlewares = append(r.middlewares, mwf...)` — the router's chain lives in\n    the router's own slice and never adopts the caller's variadic slice (AST) -/\n")
 	fmt.Fprintf(&b, "def useAppendsToOwnSlice : Bool := %v\n\n", useAppends)
+	b.WriteString("/-- message/options.go Options.Unmarshal: the loop computes `oid := SafeCastTo[OptionID](prev + delta)` and ends with the only\n    assignment to `prev`; true = it assigns the computed number (`prev = int(oid)`), false = it assigns the ID of the decoded option\n    object (`prev = option.ID`, which Option.Unmarshal leaves at 0 when it skips the option); other shapes fail closed (AST) -/\n")
+	fmt.Fprintf(&b, "def optionDeltaBaseIsComputedNumber : Bool := %v\n\n", deltaBaseComputed)
 	b.WriteString("end CoapVerif.Generated.RouterLockShape\n")
 	g.write("RouterLockShape.lean", b.String())
 }
@@ -633,6 +637,92 @@ func rlUseAppends(repo string) bool {
 	call, ok := as.Rhs[0].(*ast.CallExpr)
 	return isField(as.Lhs[0]) && ok && identName(call.Fun) == "append" && len(call.Args) == 2 && call.Ellipsis.IsValid() &&
 		isField(call.Args[0]) && identName(call.Args[1]) == param
+}
+
+// rlOptionDeltaBase looks at the decoding loop of message/options.go Options.Unmarshal.  Recognised shape: one `for` loop whose
+// body contains `<oid>, err := math.SafeCastTo[OptionID](<prev> + delta)` (or `int(<prev>) + delta`), one call
+// `<opt>.Unmarshal(…, <oid>)`, and exactly one assignment to <prev>, which is the last statement of the loop body.
+// Result: true if that assignment is `<prev> = int(<oid>)` / `<prev> = <oid>`, false if it is `<prev> = <opt>.ID` /
+// `<prev> = int(<opt>.ID)`; everything else fails closed.
+func rlOptionDeltaBase(repo string) bool {
+	_, f := parseFile(repo, "message/options.go")
+	fd := funcDecl(f, "Options", "Unmarshal")
+	var loop *ast.ForStmt
+	for _, s := range fd.Body.List {
+		if fs, ok := s.(*ast.ForStmt); ok {
+			if loop != nil {
+				fail("RouterLockShape: Options.Unmarshal: more than one loop")
+			}
+			loop = fs
+		}
+	}
+	if loop == nil || len(loop.Body.List) == 0 {
+		fail("RouterLockShape: Options.Unmarshal: no decoding loop")
+	}
+	last, ok := loop.Body.List[len(loop.Body.List)-1].(*ast.AssignStmt)
+	if !ok || last.Tok != token.ASSIGN || len(last.Lhs) != 1 || len(last.Rhs) != 1 || identName(last.Lhs[0]) == "" {
+		fail("RouterLockShape: Options.Unmarshal: the loop does not end with `prev = …`")
+	}
+	prev := identName(last.Lhs[0])
+	unwrapInt := func(e ast.Expr) ast.Expr {
+		if c, ok := e.(*ast.CallExpr); ok && identName(c.Fun) == "int" && len(c.Args) == 1 {
+			return c.Args[0]
+		}
+		return e
+	}
+	oid, opt := "", ""
+	assigns := 0
+	ast.Inspect(loop.Body, func(n ast.Node) bool {
+		switch t := n.(type) {
+		case *ast.AssignStmt:
+			for _, l := range t.Lhs {
+				if identName(l) == prev {
+					assigns++
+				}
+			}
+			if len(t.Rhs) != 1 {
+				return true
+			}
+			call, ok := t.Rhs[0].(*ast.CallExpr)
+			if !ok {
+				return true
+			}
+			fun := call.Fun
+			if ix, ok := fun.(*ast.IndexExpr); ok {
+				fun = ix.X
+			}
+			if sel, ok := fun.(*ast.SelectorExpr); ok && sel.Sel.Name == "SafeCastTo" && len(call.Args) == 1 && len(t.Lhs) == 2 {
+				be, ok := call.Args[0].(*ast.BinaryExpr)
+				if !ok || be.Op != token.ADD || identName(unwrapInt(be.X)) != prev || identName(be.Y) != "delta" || oid != "" {
+					fail("RouterLockShape: Options.Unmarshal: option number is not `SafeCastTo(%s + delta)`", prev)
+				}
+				oid = identName(t.Lhs[0])
+			}
+			if sel, ok := fun.(*ast.SelectorExpr); ok && sel.Sel.Name == "Unmarshal" && identName(sel.X) != "" && len(call.Args) == 3 {
+				if opt != "" || oid == "" || identName(call.Args[2]) != oid {
+					fail("RouterLockShape: Options.Unmarshal: the option is not decoded under the computed number")
+				}
+				opt = identName(sel.X)
+			}
+		case *ast.IncDecStmt:
+			if identName(t.X) == prev {
+				assigns++
+			}
+		}
+		return true
+	})
+	if oid == "" || opt == "" || assigns != 1 {
+		fail("RouterLockShape: Options.Unmarshal: loop shape not recognised (oid=%q option=%q assignments to %s: %d)", oid, opt, prev, assigns)
+	}
+	rhs := unwrapInt(last.Rhs[0])
+	if identName(rhs) == oid {
+		return true
+	}
+	if sel, ok := rhs.(*ast.SelectorExpr); ok && identName(sel.X) == opt && sel.Sel.Name == "ID" {
+		return false
+	}
+	fail("RouterLockShape: Options.Unmarshal: delta base `%s = …` is neither the computed number nor the decoded option's ID", prev)
+	return false
 }
 
 type rlApply struct {
